@@ -43,7 +43,7 @@ old={}
 if os.path.exists(p):
     try: old=json.load(open(p))
     except Exception: old={}
-for k in ("needs_to_manifest","breaks","source"):
+for k in ("needs_to_manifest","breaks","source","breaks_property","change","first_run"):
     if k in old: meta[k]=old[k]
 json.dump(meta,open(p,'w'),indent=1)
 PY
